@@ -34,7 +34,8 @@ def run(tier, seed, replay=None):
     srcs += ["#let x = 1\n", "", " \n ", "1. @b[b]$1$\n  \\*\n", "    / T: a\n      b\n", "é中\n",
              # item bodies that span lines, at several depths and marker kinds
              "/ Term: first line\n  second line\n", "  / Key: value\n    continued\n\n    - nested item\n\nafter\n",
-             "- first\n  second\n  - inner a\n    inner b\n+ one\n  two\n", "text\n\n  + a *b*\n    c $x$\n    / t: u\n      v\n"]
+             "- first\n  second\n  - inner a\n    inner b\n+ one\n  two\n", "$ vec(mat(1, 2; 3, 4), cases(a; b,)) $\n", "$ vec(mat(x,, y), #g(1, 2)) + sqrt(binom(a, b)) $\n",
+             "#f(g(1, 2), (a, b), (c: 1))\n", "#{ let x = f(a.b.c(1), [t]) }\n", "text\n\n  + a *b*\n    c $x$\n    / t: u\n      v\n"]
     cs = []
     for i, s in enumerate(srcs):
         for (a, b) in krange.gen_ranges(rng, s, 3 if tier == "quick" else 8):
